@@ -4,6 +4,8 @@ nearest-first candidate lists, the shape of a successful `process`.
 -/
 import Compass.Proofs.Num
 import Compass.Model.MapMatch
+import Compass.Model.MapMatchIO
+import Std.Data.String.ToNat
 import Mathlib.Order.Basic
 import Mathlib.Data.List.Basic
 
@@ -299,6 +301,47 @@ theorem destinationCoordinate_false_iff (q : Json) :
     rw [h1, h2]
 
 end
+
+
+/-! ### ids written by the matchers read back (`InputJsonExtensions` readers) -/
+
+theorem allDigits_toString (n : Nat) : Json.allDigits (toString n) = true := by
+  unfold Json.allDigits
+  rw [Nat.toString_eq_repr]
+  simp only [Bool.and_eq_true, Bool.not_eq_true', List.all_eq_true]
+  refine ⟨?_, ?_⟩
+  · have := @Nat.repr_ne_empty n
+    simp [String.isEmpty_iff, this]
+  · intro c hc
+    rw [Nat.toList_repr] at hc
+    exact Nat.isDigit_of_mem_toDigits (by omega) (by omega) hc
+
+/-- `Value::from(n).as_u64() == Some(n)` for every `u64` -/
+theorem asU64_idJson (n : Nat) (h : n < 2 ^ 64) : Json.asU64? (idJson n) = some n := by
+  unfold idJson Json.asU64?
+  simp only [allDigits_toString, if_true]
+  rw [Nat.toString_eq_repr, Nat.toNat?_repr]
+  have h' : n < 18446744073709551616 := by simpa using h
+  simp [h']
+
+theorem isNumber_iff_asF64Bits (v : Json) : v.isNumber = true ↔ ∃ b, v.asF64Bits? = some b := by
+  cases v <;> simp [Json.isNumber, Json.asF64Bits?]
+
+/-- `insertKv` on a key that is present leaves the sequence of keys as it is -/
+theorem keys_insertKv_of_mem (kvs : List (String × Json)) (k : String) (v : Json)
+    (h : kvs.any (fun p => p.1 == k) = true) : (insertKv kvs k v).map Prod.fst = kvs.map Prod.fst := by
+  unfold insertKv
+  rw [if_pos h, List.map_map]
+  apply List.map_congr_left
+  intro p _
+  by_cases hp : p.1 = k
+  · simp [hp]
+  · simp [hp]
+
+theorem keys_insertKv_of_not_mem (kvs : List (String × Json)) (k : String) (v : Json)
+    (h : ¬ kvs.any (fun p => p.1 == k) = true) : (insertKv kvs k v).map Prod.fst = kvs.map Prod.fst ++ [k] := by
+  unfold insertKv
+  rw [if_neg h]; simp
 
 end MapMatch
 end Compass
